@@ -219,7 +219,10 @@ fn main() {
                         }
                         let mut m = Machine::new(cpu);
                         let mut outv: Vec<u8> = Vec::new();
+                        let mut lineno = i;
                         for line in &cases[i] {
+                            lineno = lineno.wrapping_add(1);
+                            let align_off = lineno.wrapping_mul(37) % 64;
                             if line.first() == Some(&b'#') {
                                 outv.extend_from_slice(line);
                                 outv.push(b'\n');
@@ -230,7 +233,7 @@ fn main() {
                                 {
                                     let mut emit = |b: &[u8]| local.extend_from_slice(b);
                                     let mut out = Out { emit: &mut emit };
-                                    m.exec(line, &mut scratch[..], &mut out);
+                                    m.exec(line, &mut scratch[align_off..], &mut out);
                                 }
                                 local
                             }));
@@ -263,8 +266,13 @@ fn main() {
     let mut scratch = vec![0u8; 8 << 20];
     let mut linebuf: Vec<u8> = Vec::with_capacity(1 << 16);
     let mut obuf: Vec<u8> = Vec::with_capacity(1 << 12);
+    // the payload of every op is decoded at a different address alignment (mod 64): nothing the library
+    // computes may depend on where the caller's bytes live
+    let mut lineno: usize = 0;
     for line in input.split(b'\n') {
         let line = line.expect("read");
+        lineno = lineno.wrapping_add(1);
+        let align_off = lineno.wrapping_mul(37) % 64;
         linebuf.clear();
         linebuf.extend_from_slice(&line);
         while linebuf.last() == Some(&b'\r') || linebuf.last() == Some(&b' ') {
@@ -282,7 +290,7 @@ fn main() {
             let obuf_ref = &mut obuf;
             let mut emit = |b: &[u8]| obuf_ref.extend_from_slice(b);
             let m_ref = &mut m;
-            let scratch_ref = &mut scratch[..];
+            let scratch_ref = &mut scratch[align_off..];
             let lb = &linebuf[..];
             before = ALLOCS.load(Ordering::Relaxed);
             let r = std::panic::catch_unwind(std::panic::AssertUnwindSafe(move || {
